@@ -141,6 +141,31 @@ theorem release_only_without_output (s0 : Sys) (h0 : safe s0 = true) (as : List 
   | none => rfl
   | some o => rw [ho] at h; simp at h
 
+/-- **Every write of the machine is a `writeOk` write** (soundness of the trace-inclusion check the
+    driver runs on the recorded write logs of the real QTransform controller): from a state satisfying the
+    invariant, whatever a controller action does to the pair passes `QT.writeOk`. -/
+theorem qt_machine_writes_ok (s : Sys) (h : safe s = true) : QT.writeOk s.p (ctl s).p = true := by
+  rcases s with ⟨⟨inp, out⟩, pc, last, ign, bad, rs⟩
+  rcases inp with _ | ⟨iph, icf, ifo⟩ <;> rcases out with _ | ⟨oph, ofo, ofr⟩ <;> cases pc <;>
+    simp_all [safe, ctl, hasFin, outTD, treatRunning, addsFin_eq, QT.writeOk] <;>
+    (repeat' split) <;> (try simp_all [hasFin, outTD, QT.writeOk]) <;> (try (subst_vars; simp_all))
+  all_goals (first | (cases oph <;> simp_all <;> done) | (cases icf <;> simp_all <;> done))
+
+/-- … on every schedule: each controller action of each execution from a safe state is a `writeOk` write -/
+theorem qt_every_ctl_write_ok (s0 : Sys) (h0 : safe s0 = true) (as : List Act) :
+    QT.writeOk (QT.run s0 as).p (ctl (QT.run s0 as)).p = true :=
+  qt_machine_writes_ok _ (safe_run as s0 h0)
+
+/-- **Every write of the machine is a `writeOk` write** (soundness of the trace-inclusion check the
+    driver runs on the recorded write logs of the real QTransform controller): from a state satisfying the
+    invariant, whatever a controller action does to the pair passes `QT.writeOk`. -/
+theorem qt_writeOk_rejects :
+    QT.writeOk ⟨some ⟨.tearingDown, true, false⟩, some ⟨.tearingDown, true, true⟩⟩
+               ⟨some ⟨.tearingDown, false, false⟩, some ⟨.tearingDown, true, true⟩⟩ = false ∧
+    QT.writeOk ⟨some ⟨.running, false, false⟩, none⟩ ⟨some ⟨.running, false, false⟩, some ⟨.running, false, true⟩⟩ = false ∧
+    QT.writeOk ⟨some ⟨.running, true, false⟩, some ⟨.running, false, true⟩⟩ ⟨some ⟨.running, true, false⟩, none⟩ = false := by
+  decide
+
 /-! ### the monitors evaluated on the real write log are these predicates -/
 
 /-- on a store holding one input/output pair, the executable monitor `finGuardsOutput` says
